@@ -372,8 +372,8 @@ func parent(ck *Check, tier string, seed int64, dl time.Duration) {
 		var p Partial
 		if rerr != nil || json.Unmarshal(b, &p) != nil || r.err != nil {
 			lg, _ := os.ReadFile(r.log)
-			if len(lg) > 3000 {
-				lg = lg[len(lg)-3000:]
+			if len(lg) > 4000 {
+				lg = append(append(append([]byte{}, lg[:2500]...), []byte("\n[...]\n")...), lg[len(lg)-1500:]...)
 			}
 			harnessErr = fmt.Sprintf("worker %d failed: %v %s\n%s", r.i, r.err, p.HarnessErr, lg)
 		}
